@@ -509,10 +509,10 @@ class JAXSlater:
         Update the internal state of the wavefunction given that electron e has been moved to epos
         """
         spin = int(e >= self._nelec[0])
-        e = e - self._nelec[0] * spin
         if mask is None:
             mask = np.ones((configs.configs.shape[0],), dtype=bool)
         self.xyz[mask, e, :] = epos.configs[mask]
+        e = e - self._nelec[0] * spin
 
         if saved_values is None:
             self.recompute(configs)
